@@ -17,6 +17,7 @@ PROPS_FILE = "Props/C04.v"
 IMPORTS = "From Verde Require Import Lib.LinAlgD Model.LeastSquares Model.LSCases Model.Neighbors Model.NeighborCases Model.Invariance Model.InvarianceCases."
 SHARD = 40
 CFACTOR = 1e3
+CFACTOR_F32 = 64.0
 KAPPA_MAX = 1e10
 RULE = ("clouds of 6..24 pairwise distinct points (jittered lattice or uniform doubles, coordinate scale 1..1e4; integer lattices "
         "for the dtype streams), data of varied magnitude (two components for vector gridders), weights log-uniform over two "
@@ -33,7 +34,10 @@ RULE = ("clouds of 6..24 pairwise distinct points (jittered lattice or uniform d
         "integer-valued weights stored as int32 / int64, and data stored as float32 (values exactly representable) against the "
         "float64 base on the same values: usual tolerance (Spline, VectorSpline2D, Linear, Cubic, KNeighbors min/max are "
         "bit-identical on the unchanged code), 2^-20 x scale where KNeighbors reduces float32 values with numpy's float32 "
-        "mean / median (measured <= 2^-23.7); float32 data for gridders containing a Trend is an opt-in finding stream; "
+        "mean / median (measured <= 2^-23.7); (dtype-coords-float32, an extra beyond the property's integer dtypes) float32 "
+        "coordinates / coordinates and data / everything / query only, against float64 storage of the SAME float32-representable "
+        "values: verde evaluates coordinate differences and powers in float32 then, so least-squares gridders are held to "
+        "64 * 2^-24 * kappa * scale (measured <= 2e-7 * kappa), Linear / Cubic / KNeighbors to the usual 2^-40 (bit-identical); "
         "(layout-series) pandas Series for coordinates, data and weights of VectorSpline2D and Chain(Vector, VectorSpline2D); "
         "(qshape) query as 2-D, (1,n) against (n,), scalars, 0-d arrays, one-element arrays, and queries "
         "with as many points as the data but another shape; (qbroadcast) for every gridder query easting / northing of "
@@ -413,6 +417,9 @@ def tolk(g, spec, variant):
     kap = g.kappa(arr(spec["e"]), arr(spec["n"]), flat_w(spec), spec["conf"])
     if not kap <= KAPPA_MAX:
         return None, kap, True
+    if variant and variant.get("float32_arithmetic"):
+        # 64 * 2^-24 * kappa * scale (measured on the unchanged code: <= 2e-7 * kappa), written as C * 2^-52 * kappa * scale
+        return "(TolLS %s %s)" % (cD(CFACTOR_F32 * 2.0 ** 28), cD(kap)), kap, False
     return "(TolLS %s %s)" % (cD(CFACTOR), cD(kap)), kap, False
 
 
@@ -716,14 +723,22 @@ def generate(tier, seed):
             spec = problem(rnd, g, n=npts(rnd, name), weighted=((gi + rep) % 2 == 0) if g.weights else None)
             spec["d"] = [np.asarray(c, dtype=np.float32).astype(float).tolist() for c in spec["d"]]
             v = {"dtype": {"d": "float32"}}
-            if "knn" in name:
+            if name.startswith("knn-") or name == "vector-knn-linear":   # (in Chain(Trend, KNeighbors) the neighbours see float64 residuals)
                 v["reduction_in_float32"] = True
-            if "trend" in name:
-                # Trend.fit builds a float32 Jacobian for float32 data (reported finding): opt-in stream
-                if os.environ.get("VERIF_C04_FINDINGS"):
-                    cases.append(pair_case(g, spec, v, "FINDING-trend-float32-data"))
-            else:
-                cases.append(pair_case(g, spec, v, "dtype-data-float32/" + name))
+            cases.append(pair_case(g, spec, v, "dtype-data-float32/" + name))
+            # float32 COORDINATES (an extra: the property speaks of integer dtypes).  The values are float32-representable
+            # and the base stores the SAME values as float64; verde then evaluates coordinate differences / powers in
+            # float32, so least-squares gridders are compared at the float32 analogue of the usual bound
+            spec = problem(rnd, g, n=npts(rnd, name), weighted=((gi + rep) % 2 == 1) if g.weights else None)
+            for key in ("e", "n", "qe", "qn"):
+                spec[key] = np.asarray(spec[key], dtype=np.float32).astype(float).tolist()
+            spec["d"] = [np.asarray(c, dtype=np.float32).astype(float).tolist() for c in spec["d"]]
+            keys = [["e", "n"], ["e", "n", "d"], ["e", "n", "d", "qe", "qn"], ["qe", "qn"]][(gi + rep) % 4]
+            v = {"dtype": {key: "float32" for key in keys}, "float32_arithmetic": True}
+            if (name.startswith("knn-") or name == "vector-knn-linear") and "d" in keys:
+                v["reduction_in_float32"] = True
+            if len(set(zip(spec["e"], spec["n"]))) == len(spec["e"]):
+                cases.append(pair_case(g, spec, v, "dtype-coords-float32/" + name))
         # query easting / northing of different sizes that broadcast (every gridder)
         for gi, name in enumerate(ALL):
             g = GRIDDERS[name]
@@ -765,15 +780,6 @@ def generate(tier, seed):
                 cases.append(c)
                 nctl += 1
     return cases
-
-
-FINDING_KEY_F32 = "C04-Trend-fit-float32-data-builds-float32-jacobian"
-
-
-def finding_key(case):
-    if case.kind == "FINDING-trend-float32-data":
-        return FINDING_KEY_F32
-    return None
 
 
 def search(dis, tier, seed):
